@@ -185,7 +185,7 @@ DRV = os.path.join(LEAN, ".lake", "build", "bin", "drv")
 
 # ----------------------------------------------------------------------------- Go side
 
-def build_harness(rundir, race=False):
+def build_harness(rundir, race=False, tags=()):
     """build the harness against the current repository tree (core.REPO); returns (binary or None, log).
     go.mod/go.sum are regenerated in the run directory on every build (replace -> REPO, sums from REPO)."""
     out = os.path.join(rundir, "vh-race" if race else "vh")
@@ -197,12 +197,15 @@ def build_harness(rundir, race=False):
     modfile = os.path.join(rundir, "harness.mod")
     open(modfile, "w").write(mod)
     open(os.path.join(rundir, "harness.sum"), "w").write("\n".join(sorted(sums)) + "\n")
-    cmd = ["go", "build", "-modfile=" + modfile, "-tags", "verif"] + (["-race"] if race else []) + ["-o", out, "."]
+    cmd = ["go", "build", "-modfile=" + modfile, "-tags", " ".join(["verif"] + list(tags))] + (["-race"] if race else []) + ["-o", out, "."]
     p = subprocess.run(cmd, cwd=HARNESS, env=GOENV, stdout=subprocess.PIPE, stderr=subprocess.STDOUT,
                        text=True, timeout=1200)
     if p.returncode != 0:
         return None, p.stdout
     return out, p.stdout
+
+
+EXTRA_EXTRACTORS = [("factx_frames", "Frames.lean"), ("factx_access", "Access.lean")]
 
 
 def build_factx(rundir):
@@ -224,6 +227,24 @@ def run_factx(rundir):
     os.makedirs(tmp, exist_ok=True)
     p = subprocess.run([binp, REPO, tmp], stdout=subprocess.PIPE, stderr=subprocess.STDOUT, text=True, timeout=300)
     ok = p.returncode == 0
+    logs = [p.stdout]
+    # stand-alone extractors (one generated file each, printed to stdout)
+    for d, outname in EXTRA_EXTRACTORS:
+        src = os.path.join(VERIF, "go", d)
+        if not os.path.isdir(src):
+            continue
+        xb = os.path.join(rundir, d)
+        b = subprocess.run(["go", "build", "-o", xb, "."], cwd=src, env=GOENV, stdout=subprocess.PIPE, stderr=subprocess.STDOUT, text=True, timeout=600)
+        if b.returncode != 0:
+            ok = False
+            logs.append("%s build failed:\n%s" % (d, b.stdout))
+            continue
+        r = subprocess.run([xb, REPO], stdout=subprocess.PIPE, stderr=subprocess.PIPE, text=True, timeout=300)
+        if r.returncode != 0:
+            ok = False
+            logs.append("%s: %s" % (d, r.stderr[-1500:]))
+        if r.stdout.strip():
+            open(os.path.join(tmp, outname), "w").write(r.stdout)
     with Lock("lake"):
         os.makedirs(gen, exist_ok=True)
         new = {f: open(os.path.join(tmp, f)).read() for f in os.listdir(tmp) if f.endswith(".lean")}
@@ -235,7 +256,7 @@ def run_factx(rundir):
             path = os.path.join(gen, f)
             if not os.path.exists(path) or open(path).read() != s:
                 open(path, "w").write(s)
-    return ok, p.stdout
+    return ok, "\n".join(logs)
 
 
 def gen_cases(vh, name, seed, n, tier):
